@@ -37,10 +37,14 @@ struct Ledger {
     decode_calls: u32,
     fault: EF,
     fired: bool,
+    /// zero-sized droppable tokens (they cannot carry an id)
+    z_live: i64,
+    z_constructed: u32,
+    z_over_dropped: u32,
 }
 
 thread_local! {
-    static LEDGER: RefCell<Ledger> = RefCell::new(Ledger { next_id: 1, live: vec![false; 8192], n_live: 0, constructed: 0, dropped: 0, double_drops: 0, decode_calls: 0, fault: EF::None, fired: false });
+    static LEDGER: RefCell<Ledger> = RefCell::new(Ledger { next_id: 1, live: vec![false; 8192], n_live: 0, constructed: 0, dropped: 0, double_drops: 0, decode_calls: 0, fault: EF::None, fired: false, z_live: 0, z_constructed: 0, z_over_dropped: 0 });
 }
 
 fn ledger_reset(fault: EF) {
@@ -57,7 +61,61 @@ fn ledger_reset(fault: EF) {
         l.decode_calls = 0;
         l.fault = fault;
         l.fired = false;
+        l.z_live = 0;
+        l.z_constructed = 0;
+        l.z_over_dropped = 0;
     });
+}
+
+/// Consults the element-fault plan for the next element decoder call.
+fn next_elem_action() -> u8 {
+    LEDGER.with(|l| {
+        let mut l = l.borrow_mut();
+        let idx = l.decode_calls;
+        l.decode_calls += 1;
+        match l.fault {
+            EF::ErrAt(k) if k == idx => {
+                l.fired = true;
+                1
+            },
+            EF::PanicAt(k) if k == idx => {
+                l.fired = true;
+                2
+            },
+            _ => 0,
+        }
+    })
+}
+
+/// Zero-sized element with a Drop impl (token / permit style): one byte on the wire.
+pub struct Zd;
+impl Decode for Zd {
+    fn decode<I: Input>(input: &mut I) -> Result<Self, Error> {
+        input.read_byte()?;
+        match next_elem_action() {
+            1 => return Err("sim: malformed element".into()),
+            2 => std::panic::panic_any(crate::InjectedPanic),
+            _ => {},
+        }
+        LEDGER.with(|l| {
+            let mut l = l.borrow_mut();
+            l.z_live += 1;
+            l.z_constructed += 1;
+        });
+        Ok(Zd)
+    }
+}
+impl Drop for Zd {
+    fn drop(&mut self) {
+        LEDGER.with(|l| {
+            let mut l = l.borrow_mut();
+            if l.z_live <= 0 {
+                l.z_over_dropped += 1;
+            } else {
+                l.z_live -= 1;
+            }
+        });
+    }
 }
 
 /// Instrumented element: 2 bytes on the wire, holds a heap block, registered in the ledger.
@@ -71,23 +129,7 @@ impl Decode for Tr {
     fn decode<I: Input>(input: &mut I) -> Result<Self, Error> {
         let mut b = [0u8; 2];
         input.read(&mut b)?;
-        let action = LEDGER.with(|l| {
-            let mut l = l.borrow_mut();
-            let idx = l.decode_calls;
-            l.decode_calls += 1;
-            match l.fault {
-                EF::ErrAt(k) if k == idx => {
-                    l.fired = true;
-                    1
-                },
-                EF::PanicAt(k) if k == idx => {
-                    l.fired = true;
-                    2
-                },
-                _ => 0,
-            }
-        });
-        match action {
+        match next_elem_action() {
             1 => return Err("sim: malformed element".into()),
             2 => std::panic::panic_any(crate::InjectedPanic),
             _ => {},
@@ -174,6 +216,15 @@ pub struct T4(pub Tr, pub Zf);
 #[derive(Decode)]
 pub struct P4(pub Tr, pub Zf);
 #[derive(Decode)]
+#[repr(transparent)]
+pub struct T5(pub Tr, pub PhantomData<u8>, pub Zf);
+#[derive(Decode)]
+#[repr(transparent)]
+pub struct T6(pub Tr, pub Zf, pub Zf);
+#[derive(Decode)]
+#[repr(transparent)]
+pub struct T7(pub PhantomData<u16>, pub [Tr; 2], pub Zf);
+#[derive(Decode)]
 pub struct LStruct {
     pub a: Tr,
     pub b: Vec<Tr>,
@@ -194,6 +245,8 @@ enum LS {
     E,
     /// one Zf element
     Z,
+    /// one Zd token
+    D,
     Arr(usize, Box<LS>),
     /// count prefix + N elements (N = the case's N)
     Seq(Box<LS>),
@@ -209,6 +262,7 @@ enum LS {
 struct Built {
     bytes: Vec<u8>,
     n_tr: u32,
+    n_zd: u32,
     zf_offsets: Vec<usize>,
     next_payload: u16,
 }
@@ -219,6 +273,10 @@ fn build(ls: &LS, n: usize, b: &mut Built) {
             b.bytes.extend_from_slice(&b.next_payload.to_le_bytes());
             b.next_payload += 1;
             b.n_tr += 1;
+        },
+        LS::D => {
+            b.bytes.push(7);
+            b.n_zd += 1;
         },
         LS::Z => {
             b.zf_offsets.push(b.bytes.len());
@@ -302,6 +360,9 @@ fn containers() -> Vec<LCont> {
     use LS::*;
     let tr = || LS::E;
     let t4 = || Tuple(vec![LS::E, LS::Z]);
+    let t6 = || Tuple(vec![LS::E, LS::Z, LS::Z]);
+    let t7 = || Tuple(vec![LS::E, LS::E, LS::Z]);
+    let zd = || LS::D;
     let mut v: Vec<LCont> = Vec::new();
     lc! { v;
         [Tr; 0], Arr(0, bx(tr())), N_ONE;
@@ -346,6 +407,24 @@ fn containers() -> Vec<LCont> {
         [P4; 3], Arr(3, bx(t4())), N_ONE;
         Vec<T4>, Seq(bx(t4())), N_SMALL;
         Rc<[T4; 2]>, Arr(2, bx(t4())), N_ONE;
+        T5, t4(), N_ONE;
+        Box<T5>, t4(), N_ONE;
+        [T5; 2], Arr(2, bx(t4())), N_ONE;
+        Arc<T5>, t4(), N_ONE;
+        T6, t6(), N_ONE;
+        Box<T6>, t6(), N_ONE;
+        Rc<[T6; 2]>, Arr(2, bx(t6())), N_ONE;
+        T7, t7(), N_ONE;
+        Box<T7>, t7(), N_ONE;
+        [T7; 2], Arr(2, bx(t7())), N_ONE;
+        [Zd; 3], Arr(3, bx(zd())), N_ONE;
+        Box<[Zd; 4]>, Arr(4, bx(zd())), N_ONE;
+        [[Zd; 2]; 2], Arr(2, bx(Arr(2, bx(zd())))), N_ONE;
+        Vec<[Zd; 2]>, Seq(bx(Arr(2, bx(zd())))), N_SMALL;
+        Vec<Zd>, Seq(bx(zd())), N_SMALL;
+        (Tr, [Zd; 2], Tr), Tuple(vec![tr(), Arr(2, bx(zd())), tr()]), N_ONE;
+        Rc<[Zd; 5]>, Arr(5, bx(zd())), N_ONE;
+        Option<Box<[Zd; 2]>>, OptSome(bx(Arr(2, bx(zd())))), N_ONE;
         Vec<[Tr; 3]>, Seq(bx(Arr(3, bx(tr())))), N_SMALL;
         [Vec<Tr>; 3], Arr(3, bx(Seq(bx(tr())))), N_SMALL;
         Box<[Box<Tr>; 4]>, Arr(4, bx(tr())), N_ONE;
@@ -383,6 +462,9 @@ pub struct LedgerScn;
 #[derive(Debug)]
 struct Outcome {
     class: &'static str,
+    z_live_before_drop: i64,
+    z_leaked: i64,
+    z_over_dropped: u32,
     live_before_drop: usize,
     leaked: usize,
     double_drops: u32,
@@ -402,18 +484,23 @@ fn one_run(c: &LCont, data: &[u8], src: &SourceSpec, ef: EF) -> Outcome {
     window_begin();
     let r = std::panic::catch_unwind(std::panic::AssertUnwindSafe(|| (c.decode)(base.as_dyn(), &src.layers)));
     let mut foreign_panic = None;
+    let z_before = |()| LEDGER.with(|l| l.borrow().z_live);
+    let mut z_live_before_drop = 0;
     let (class, live_before_drop) = match r {
         Ok(Ok(v)) => {
+            z_live_before_drop = z_before(());
             let live = LEDGER.with(|l| l.borrow().n_live);
             drop(v);
             ("ok", live)
         },
         Ok(Err(e)) => {
+            z_live_before_drop = z_before(());
             let live = LEDGER.with(|l| l.borrow().n_live);
             drop(e);
             ("err", live)
         },
         Err(p) => {
+            z_live_before_drop = z_before(());
             let live = LEDGER.with(|l| l.borrow().n_live);
             if p.downcast_ref::<crate::InjectedPanic>().is_none() {
                 foreign_panic = Some(if let Some(s) = p.downcast_ref::<&str>() { s.to_string() } else if let Some(s) = p.downcast_ref::<String>() { s.clone() } else { "?".into() });
@@ -434,10 +521,26 @@ fn one_run(c: &LCont, data: &[u8], src: &SourceSpec, ef: EF) -> Outcome {
         let l = l.borrow();
         (l.n_live, l.double_drops, l.constructed, l.fired)
     });
-    Outcome { class, live_before_drop, leaked, double_drops: dd, constructed, net_heap: w.live, fired, calls, trace: rep.trace, foreign_panic }
+    let (z_leaked, z_over) = LEDGER.with(|l| {
+        let l = l.borrow();
+        (l.z_live, l.z_over_dropped)
+    });
+    Outcome { class, z_live_before_drop, z_leaked, z_over_dropped: z_over, live_before_drop, leaked, double_drops: dd, constructed, net_heap: w.live, fired, calls, trace: rep.trace, foreign_panic }
 }
 
-fn judge(c: &LCont, n: usize, what: &str, o: &Outcome, expected_tr: u32) -> Verdict {
+fn judge(c: &LCont, n: usize, what: &str, o: &Outcome, expected_tr: u32, expected_zd: u32) -> Verdict {
+    if o.z_over_dropped > 0 {
+        return viol("c10.double_drop", format!("{} (N={}) under {}: zero-sized droppable elements were dropped {} time(s) more often than constructed", c.name, n, what, o.z_over_dropped));
+    }
+    if o.z_leaked > 0 {
+        return viol("c10.leak_elements", format!("{} (N={}) under {}: {} zero-sized droppable element(s) never dropped (outcome {})", c.name, n, what, o.z_leaked, o.class));
+    }
+    if o.class != "ok" && o.z_live_before_drop > 0 {
+        return viol("c10.late_drop", format!("{} (N={}) under {}: {} zero-sized element(s) still alive when the failed call returned", c.name, n, what, o.z_live_before_drop));
+    }
+    if o.class == "ok" && o.z_live_before_drop != expected_zd as i64 {
+        return viol("c10.incomplete_value", format!("{} (N={}) under {}: decode succeeded holding {} live zero-sized elements, {} expected", c.name, n, what, o.z_live_before_drop, expected_zd));
+    }
     if let Some(p) = &o.foreign_panic {
         return viol("c10.unexpected_panic", format!("{} (N={}) under {}: the library panicked: {}", c.name, n, what, p));
     }
@@ -508,7 +611,11 @@ impl Scenario for LedgerScn {
     fn run(&self, plan: &Plan, st: &mut Stats) -> Verdict {
         let c = &conts()[plan.param("fix_container") as usize];
         let n = plan.param("fix_n") as usize;
-        let mut b = Built { bytes: Vec::new(), n_tr: 0, zf_offsets: Vec::new(), next_payload: 100 };
+        if cfg!(miri) && n > 8 {
+            // the interpreter is ~1000x slower: big instances are left to the native run
+            return Ok(());
+        }
+        let mut b = Built { bytes: Vec::new(), n_tr: 0, n_zd: 0, zf_offsets: Vec::new(), next_payload: 100 };
         build(&c.shape, n, &mut b);
         let src0 = plan.source0();
         // A single explicit fault (replay of a minimised plan) or the full enumeration.
@@ -519,7 +626,7 @@ impl Scenario for LedgerScn {
         if dry.class != "ok" {
             return viol("harness.dry_run_failed", format!("harness: fault-free decode of {} N={} failed: {:?}", c.name, n, dry));
         }
-        judge(c, n, "no fault", &dry, b.n_tr)?;
+        judge(c, n, "no fault", &dry, b.n_tr, b.n_zd)?;
         let (read_calls, descend_calls, alloc_calls, all_calls, io_calls) = dry.calls;
         let layer_variants: Vec<Vec<Layer>> = vec![vec![], vec![Layer::Counted, Layer::Mem(u64::MAX)], vec![Layer::Depth(u32::MAX), Layer::Counted]];
         // Big instances (N > 100): positions are sampled (every 61st, around multiples of the
@@ -527,8 +634,9 @@ impl Scenario for LedgerScn {
         let big = b.n_tr > 100;
         let keep = |k: u32, total: u32| -> bool { !big || k % 61 == 0 || k + 2 >= total || (k % 1024 <= 2) || (k % 1024 >= 1022) };
         let keep_byte = |k: usize, total: usize| -> bool { !big || k % 131 == 0 || k + 3 >= total || (k % 2048 <= 4) || (k % 2048 >= 2044) };
-        for k in 0..b.n_tr {
-            if !keep(k, b.n_tr) {
+        let n_elem = b.n_tr + b.n_zd;
+        for k in 0..n_elem {
+            if !keep(k, n_elem) {
                 continue;
             }
             runs.push((format!("element decoder Err at element {k}"), b.bytes.clone(), src0.clone(), EF::ErrAt(k)));
@@ -598,7 +706,7 @@ impl Scenario for LedgerScn {
         }
         // element faults again under wrapper layers (unwinding through the wrappers)
         for lv in &layer_variants[1..] {
-            for k in 0..b.n_tr.min(6) {
+            for k in 0..n_elem.min(6) {
                 let mut s = src0.clone();
                 s.layers = lv.clone();
                 runs.push((format!("element decoder panic at element {k} under {:?}", lv), b.bytes.clone(), s.clone(), EF::PanicAt(k)));
@@ -627,7 +735,7 @@ impl Scenario for LedgerScn {
             if o.class == "panic" {
                 st.probe("unwound");
             }
-            if let Err(mut v) = judge(c, n, &what, &o, b.n_tr) {
+            if let Err(mut v) = judge(c, n, &what, &o, b.n_tr, b.n_zd) {
                 v.detail = format!("{} [run {} of {} in this case; source {}]", v.detail, i, total, src.describe());
                 return Err(v);
             }
